@@ -261,16 +261,12 @@ Proof. intros Hv Hn. rewrite (proj1 (proj2 fmts_std)). apply (round_trip 8 23 (-
 Lemma round_trip_dp v : 0 <= v < 2 ^ 64 -> (fld_e 11 52 v = 2047 -> fld_m 11 52 v = 0) -> FPNum_convert fmt_dp (FPNum_from_ieee754 fmt_dp v) = v.
 Proof. intros Hv Hn. rewrite (proj2 (proj2 fmts_std)). apply (round_trip 11 52 (-1022) 2251799813685248); first [lia | exact Hn | left; reflexivity]. Qed.
 
-Lemma round_trip_hp_fixed v : 0 <= v < 2 ^ 16 -> (fld_e 5 10 v = 31 -> fld_m 5 10 v = 0) ->
-  FPNum_convert (fmt_hp_with (-14)) (FPNum_from_ieee754 (fmt_hp_with (-14)) v) = v.
-Proof. intros Hv Hn. rewrite (proj1 fmts_std (-14)). apply (round_trip 5 10 (-14) 512); first [lia | exact Hn | left; reflexivity]. Qed.
-
-(* half precision as the code is today: every pattern that is not a non-zero subnormal round-trips ... *)
-Lemma round_trip_hp_partial v : 0 <= v < 2 ^ 16 -> (fld_e 5 10 v = 31 -> fld_m 5 10 v = 0) -> (fld_e 5 10 v <> 0 \/ fld_m 5 10 v = 0) ->
+Lemma round_trip_hp v : 0 <= v < 2 ^ 16 -> (fld_e 5 10 v = 31 -> fld_m 5 10 v = 0) ->
   FPNum_convert fmt_hp (FPNum_from_ieee754 fmt_hp v) = v.
-Proof. intros Hv Hn G. unfold fmt_hp. rewrite (proj1 fmts_std (-16)). apply (round_trip 5 10 (-16) 512); first [lia | exact Hn | right; exact G]. Qed.
+Proof. intros Hv Hn. unfold fmt_hp. rewrite (proj1 fmts_std (-14)). apply (round_trip 5 10 (-14) 512); first [lia | exact Hn | left; reflexivity]. Qed.
 
-(* ... and the subnormals do not (finding #21): pattern 0x0001 comes back as 0, 0x03FF as 0x00FF *)
-Lemma round_trip_hp_witness :
-  FPNum_convert fmt_hp (FPNum_from_ieee754 fmt_hp 1) = 0 /\ FPNum_convert fmt_hp (FPNum_from_ieee754 fmt_hp 1023) = 255.
+(* HISTORY (finding #21, repaired by 8541cf4): with exponent -16 the subnormals did not round-trip: 0x0001 came back as 0, 0x03FF as 0x00FF *)
+Lemma round_trip_hp_witness_before :
+  FPNum_convert fmt_hp_before_8541cf4 (FPNum_from_ieee754 fmt_hp_before_8541cf4 1) = 0 /\
+  FPNum_convert fmt_hp_before_8541cf4 (FPNum_from_ieee754 fmt_hp_before_8541cf4 1023) = 255.
 Proof. vm_compute. split; reflexivity. Qed.
